@@ -230,7 +230,26 @@ class C09(Spec):
         return lattice_units('checks/c09.cpp', shards=(lambda g, s: 4 if tier == 'thorough' else 2))
 
 
-_SPECS = {'C08': C08, 'C09': C09, 'C01': C01, 'C02': C02, 'C03': C03, 'C04': C04, 'C05': C05, 'C06': C06, 'C07': C07}
+class C10(Spec):
+    engine = 'E5-progmatrix'
+    design_ref = 'DESIGN.md 4/C10'
+    technique = 'exhaustive matrix operation x operand kinds x buffer placement x input on the real code; buffers between PROT_NONE guard pages with canary bytes'
+    level_text = ('~75 read-only operations are executed with every pair of operand kinds {owning, Map, Map<const>} (orthogonal array of strength 2 over the four operand positions = the full kind matrix of every unary/binary operation) '
+                  'and 30 mutating operations through mutable views, for 4 buffer placements (16-byte aligned, sizeof(Scalar)-offset, flush with a trailing PROT_NONE page, flush after a leading one); '
+                  'results are compared with the all-owning computation (bit-identical count reported), every byte of the data page outside the viewed scalars is a canary, any access outside the buffer faults and is attributed to the cell')
+    rule = ('cells = (kind row, placement, input) for reads and (mutating op, placement, input) for writes; non-trivial = at least one view operand and non-zero rotation')
+    explanation = 'explicit enumeration of the operand-kind/placement matrix on the real code; oracle = owning computation (bitwise), canaries, guard pages'
+    assumptions = ['x86-64: misaligned-by-sizeof(Scalar) buffers are legal for unaligned Eigen::Map', 'a stray access that stays inside the viewed buffer cannot be seen by guard pages; it is caught by the result comparison']
+    level_note = 'trusted: mprotect guard pages + SIGSEGV attribution via sigsetjmp'
+
+    def units(self, tier):
+        us = lattice_units('checks/c10.cpp', defs=['VF_FN_ALL=1'], shards=(lambda g, s: 2 if tier == 'thorough' else 1))
+        for u in us:
+            u.bisect = [('all_but_bracket_and_J_times_t_on_views', ['VF_FN=1']), ('bracket_with_view_operand', ['VF_FN=2']), ('J_times_view_tangent', ['VF_FN=3'])]
+        return us
+
+
+_SPECS = {'C08': C08, 'C09': C09, 'C10': C10, 'C01': C01, 'C02': C02, 'C03': C03, 'C04': C04, 'C05': C05, 'C06': C06, 'C07': C07}
 
 
 def get(prop):
